@@ -1,3 +1,6 @@
 import FsDb.Model.VFile
 import FsDb.Proofs.VFile
 import FsDb.Properties.C18
+import FsDb.Properties.C19
+import FsDb.Properties.C20
+import FsDb.Proofs.Refine
